@@ -164,6 +164,10 @@ def g_split(rng, seq):
     caps = []
     for _ in range(k):
         caps.append(rng.choice([24, 48, 96, max(1, d // 2), d, d + 5, rng.randrange(1, d + 10)]))
+    if k > 1 and rng.random() < 0.2:
+        caps[1] = caps[0]                      # repeated capacity
+    if rng.random() < 0.03:
+        caps[rng.randrange(len(caps))] = 0     # degenerate but accepted capacity
     return {"caps": caps}
 
 
